@@ -452,7 +452,10 @@ class FlatLinearOperator(ScipyLinearOperator):
                 size = sl.stop - sl.start
                 self.shape = (size, size)
             else:
-                self._mask = np.all(self.leg.to_qflat() == value[np.newaxis, :], axis=1)
+                # charges of the leg as they count for the total charge, i.e. including `qconj`
+                # (same convention as `get_qindex_of_charges` in the `compact_flat` case above)
+                charges = self.leg.chinfo.make_valid(self.leg.qconj * value)
+                self._mask = np.all(self.leg.to_qflat() == charges[np.newaxis, :], axis=1)
                 self.shape = tuple([np.sum(self._mask)] * 2)
         else:
             if self.compact_flat:
